@@ -78,6 +78,12 @@ def check_codec(c):
     check_views(devs, e, days, ms, "read_from_raw")
     f = cds.CdsShortTimestamp.from_unix_days(days - DAY_OFFSET, ms)
     check_views(devs, f, days, ms, "from_unix_days")
+    # reader objects created without the derived views (documented keyword init_dt_unix_stamp=False) and then filled by read_from_raw:
+    # an all-zero placeholder, and a holder that already carries the very pair that is decoded
+    for tag, holder in (("empty_no_views", cds.CdsShortTimestamp.empty(False)), ("same_pair_no_views", cds.CdsShortTimestamp(days, ms, init_dt_unix_stamp=False)),
+                        ("same_pair_no_views_kw", cds.CdsShortTimestamp(ccsds_days=days, ms_of_day=ms, init_dt_unix_stamp=False))):
+        holder.read_from_raw(raw)
+        check_views(devs, holder, days, ms, f"read_from_raw.{tag}")
     return devs
 
 
